@@ -9,6 +9,8 @@ CLAIMED = {
 }
 CLAIMED["C07"] = ("other", "Write-authority gates as structure: the DB/Store methods reachable from the fuse and http packages are discovered; each one reaching a file-system mutation must be a confirmed gated mutator (every path entry->first effect passes the true branch of Writeable()/IsPrimary(), refusing branch returns ErrReadOnlyReplica) or a confirmed exception; plus re-check after the last blocking call before publishing, errno mapping (sibling agreement), import bound to the primary context, modes, closed caller sets of setPos/ApplyLTXNoLock. Does NOT decide demotion schedules relative to in-flight transactions.", "DESIGN.md section 4 C07, section 3.3",
   "entry-point discovery over the call graph vs. confirmed tables, CFG guarded-by rules, sibling agreement, origin rendering over go/ssa")
+CLAIMED["C02"] = ("other", "Structural necessary conditions of rollback-journal capture decided on every path: dirty tracking of every accepted database write, commit-detection wiring of the three finalisation events, no LTX on the rollback branch, LTX header provenance (TXID+1, pre = previous post checksum, commit from the database header), page filter (<= commit, lock page skipped, sorted, bytes from the database file, checksum cross-check), truncated-page reset before the post-apply checksum, publish/invalidate/advance order, guards of TruncateDatabase. Does NOT decide that the LTX equals the page delta for every pager program.", "DESIGN.md section 4 C02",
+  "CFG path rules, origin rendering of header/argument values, who-may-write tables over go/ssa")
 REASONS = {}
 def main():
     checks=[]
